@@ -45,7 +45,11 @@ SIG_ADMIN_FRAG = 'C02 / fragment of an administrative-record bundle (PAYLOAD_ADM
 PENDING_FINDINGS = [SIG_QUERY, SIG_REASON, SIG_ADMIN_FRAG]
 
 IMPL_REASONS = list(range(0, 11)) + list(range(12, 17))      # only used to steer the generator
-MODES = [(False, False), (False, True), (True, False), (True, True)]   # (via_payload, update_crc)
+# (via_payload, update_crc, time_as): how the real Bundle is built.  The last three hand every DTN time to the
+# implementation as a datetime / ISO text (DtnTimeField.any2i -> datetime_to_dtntime) instead of the integer.
+MODES = [(False, False, 'int'), (False, True, 'int'), (True, False, 'int'), (True, True, 'int'),
+         (False, True, 'datetime'), (True, True, 'datetime'), (True, True, 'iso')]
+SIG_TIME = "C02 / DTN time given as datetime or ISO text is not encoded as the exact integer ms since the DTN epoch"
 
 
 # ---------------------------------------------------------------------------------------------- real code
@@ -56,9 +60,9 @@ def exc_name(err):
 
 def impl_encode_modes(spec):
     out = []
-    for (via, upd) in MODES:
+    for (via, upd, time_as) in MODES:
         try:
-            out.append(bytes(bg.build_real(spec, via_payload=via, update_crc=upd)).hex())
+            out.append(bytes(bg.build_real(spec, via_payload=via, update_crc=upd, time_as=time_as)).hex())
         except Exception as err:
             out.append(exc_name(err))
     return out
@@ -80,6 +84,16 @@ def impl_decode(raw):
         obs['admin'] = [bg.admin_of_real(blk) for blk in bundle.blocks]
     except Exception as err:
         obs['admin'] = exc_name(err)
+    try:
+        # the decoded DTN times as the instants the implementation shows for them (i2h -> dtntime_to_datetime)
+        times = [bundle.primary.getfieldval('create_ts').getfieldval('dtntime')]
+        for rec in (obs['admin'] if isinstance(obs['admin'], list) else []):
+            if rec and rec.get('type') == 1:
+                times += [when for (_f, when) in rec['status'] if when is not None] + [rec['time']]
+        obs['instants'] = [[val, str(enc.DtnTimeField.dtntime_to_datetime(val))] for val in times
+                           if isinstance(val, int) and 0 < val <= bg.MAX_DATETIME_MS]
+    except Exception as err:
+        obs['instants'] = exc_name(err)
     try:
         obs['crc_fail'] = sorted(bundle.check_all_crc())
     except Exception as err:
@@ -148,12 +162,13 @@ def oracle(spec, enc_modes, dec):
     want_hex = want.hex()
     probs = []
     typed = any((blk.get('view') or {}).get('kind') in ('prev_node', 'age', 'hop', 'admin') for blk in spec['blocks'])
-    for ((via, upd), got) in zip(MODES, enc_modes):
+    for ((via, upd, time_as), got) in zip(MODES, enc_modes):
         if via and not typed:
             continue
         if got != want_hex:
-            probs.append(('encode', 'bytes(Bundle) built with via_payload=%s update_crc=%s is %s, an RFC 9171 encoder gives %s'
-                          % (via, upd, got[:160], want_hex[:160])))
+            probs.append(('encode' if time_as == 'int' else 'encode-time',
+                          'bytes(Bundle) built with via_payload=%s update_crc=%s times as %s is %s, an RFC 9171 encoder gives %s'
+                          % (via, upd, time_as, got[:160], want_hex[:160])))
             continue
         shape = bg.shape_problems(bytes.fromhex(got))
         if shape:
@@ -167,6 +182,8 @@ def oracle(spec, enc_modes, dec):
         probs.append(('fields', 'decoded field values differ in %s: got %r' % (diff, _pick(dec['spec'], diff))))
     if dec['reenc'] != want_hex:
         probs.append(('reencode', 're-encoding the decoded bundle gives %s, original %s' % (str(dec['reenc'])[:160], want_hex[:160])))
+    if isinstance(dec.get('instants'), str) or any(text != str(bg.dtn_datetime(val)) for (val, text) in dec.get('instants', [])):
+        probs.append(('decode-time', 'decoded DTN times shown as %r' % (dec['instants'],)))
     if dec['crc_fail'] != []:
         probs.append(('crc', 'check_all_crc reports %r on correct CRCs' % (dec['crc_fail'],)))
     if spec['flags'] & bg.FLAG_PAYLOAD_ADMIN:
@@ -242,6 +259,27 @@ def gen_valid(chk):
         spec['blocks'][0]['view'] = dict(kind='raw')
         spec['src'] = 'ipn:%d.%d' % (val, val)
         cases.append(('boundary', bg.fill_crc(spec)))
+    # DTN times around every power of two of ms and of seconds since 2000 (+ random ms instants over 2000-2040): six
+    # time values per status-report bundle; the build modes with time_as datetime / ISO convert every one of them
+    sweep = bg.gen_time_sweep() if chk.quick() else bg.gen_time_sweep(offsets=tuple(range(-8, 40)))
+    year40 = bg.dtn_ms(bg.DTN_EPOCH.replace(year=2040))
+    randoms = [rng.randrange(1, year40) for _ in range(360 if chk.quick() else 60000)]
+    for (label, values) in (('dtn-time', sweep), ('dtn-time-random(oracle only)' if chk.quick() else 'dtn-time-random', randoms)):
+        for pos in range(0, len(values), 6):
+            vals = (values[pos:pos + 6] * 6)[:6]
+            if chk.quick() and label == 'dtn-time' and pos % 24:
+                label2 = 'dtn-time(oracle only)'     # quick: the model is evaluated on every fourth sweep bundle
+            else:
+                label2 = label
+            spec = bg.gen_bundle(rng, admin=True, n_ext=0, crc_types=[rng.choice([0, 1, 2])], eid_kinds=('ipn', 'none'), **safe)
+            rec = bg.gen_status_report(rng, reasons=IMPL_REASONS, pattern=(True, True, True, True, 0), eid_kinds=('ipn',))
+            for (idx, val) in enumerate(vals[:4]):
+                rec['status'][idx][1] = val
+            rec['time'] = vals[4]
+            spec['time'] = vals[5]
+            spec['blocks'][-1]['view'] = dict(kind='admin', record=rec)
+            spec['blocks'][-1]['data'] = bg.encode_admin(rec).hex()
+            cases.append((label2, bg.fill_crc(spec)))
     # the NUMBER of blocks at its own CBOR head boundaries (bundle array of 23/24 and 255/256 items, +-1)
     for n_ext in ([21, 22, 23, 24, 25, 253, 254] if chk.quick() else bg.BLOCK_COUNT_BOUNDARY * 3 + [700]):
         cases.append(('block-count', bg.gen_bundle(rng, n_ext=n_ext, tiny_ext=True, admin=False, payload_sizes=(0, 1, 5), **safe)))
@@ -578,9 +616,15 @@ def run_streams(chk, cases, pending, shared):
         # --- oracle on the implementation
         probs = oracle(spec, obs['enc'], obs['dec'])
         if probs:
-            sig = classify(spec) or ('C02 / %s of a well-formed bundle (%s)' % (probs[0][0], label.split(':')[0]))
+            sig = classify(spec) or (SIG_TIME if all(kind in ('encode-time', 'decode-time') for (kind, _t) in probs) else None) \
+                or ('C02 / %s of a well-formed bundle (%s)' % (probs[0][0], label.split(':')[0]))
             what = '%s [%s]' % (probs[0][1], '; '.join(kind for (kind, _t) in probs))
             report(chk, pending, sig, what, dict(kind='spec', spec=spec))
+        # the model takes the integer ms: a datetime / ISO build must give the octets of the integer build (which is
+        # what the model is compared with) - otherwise the correspondence is broken on this concrete input
+        for ((via, upd, time_as), got) in zip(MODES, obs['enc']):
+            if time_as != 'int' and got != obs['enc'][3 if via else 1] and classify(spec) is None:
+                bad_enc.append('%s: times given as %s encode to %s, as integers to %s' % (label, time_as, got[:100], obs['enc'][1][:100]))
         if label.endswith('(oracle only)'):
             continue
         chk.count('model_evaluated_cases')
@@ -588,9 +632,11 @@ def run_streams(chk, cases, pending, shared):
         # --- model vs implementation: encoder
         (eq_given, eq_updated, crc_same, m_wf, m_guard, _m_rfc_admin, _m_extra) = eflags
         typed = any((blk.get('view') or {}).get('kind') in ('prev_node', 'age', 'hop', 'admin') for blk in spec['blocks'])
-        for ((via, upd), got) in zip(MODES, obs['enc']):
+        for ((via, upd, time_as), got) in zip(MODES, obs['enc']):
             if via and not typed:
                 continue
+            if time_as != 'int':
+                continue    # compared with the integer build above
             if got.startswith('raise:'):
                 # the model has no notion of "cannot be constructed"; only the reason-code class raises here
                 if classify(spec) != SIG_REASON:
@@ -895,8 +941,9 @@ def main():
     chk.finish(
         rule=('valid stream = every subset of the 9 defined primary flags, every CRC-type triple, every presence pattern of the '
               'optional status-report fields, every integer field at the CBOR head boundaries %s, 64 KiB payloads, plus seeded random '
-              'bundles (dtn:none / dtn://node/demux over VCHAR without ?# / ipn 2 and 3 parts, known block types 6,7,10,11,12 and '
-              'unknown ones, unassigned flag bits); each is encoded by the real classes four ways, and the independent encoder\'s '
+              'bundles, DTN times around every power of two of ms and s since 2000 handed over as int / datetime / ISO text, block counts '
+              'around 23/24 and 255/256 array items (dtn:none / dtn://node/demux over VCHAR without ?# / ipn 2 and 3 parts, known block types 6,7,10,11,12 and '
+              'unknown ones, unassigned flag bits); each is encoded by the real classes seven ways (BTSD octets or typed payloads x given or computed CRCs x times as int, datetime, ISO), and the independent encoder\'s '
               'octets are decoded and re-encoded by the real classes; findings stream = inputs of the three defect classes; '
               'agent-tx = octets given to a fake CL by the real agent. A case is non-trivial when a conditional field, a CRC, an '
               'extension block, an administrative record or a non-null EID is present; distinct = distinct spec (sha1). '
@@ -913,7 +960,12 @@ def main():
             'the independent codec harness/bundlegen.py (plain cbor2 + bitwise CRC, written from RFC 9171) is the oracle',
             'cbor2 is modelled by Lib/Cbor (floats, 2-octet simple values, indefinite strings/maps, UTF-8 validation outside the model)',
             'EID text <-> structure: the model covers dtn SSPs as octets; urlsplit is modelled by impl_norm_ssp and checked by correspondence '
-            'on VCHAR SSPs only; DTN time <-> datetime conversions are not exercised (integers)',
+            'on VCHAR SSPs only',
+            'DTN time <-> datetime conversion (DtnTimeField.datetime_to_dtntime / dtntime_to_datetime) is covered by the correspondence '
+            'and the oracle, not by a theorem: the Coq model takes the integer ms; the harness converts with integer arithmetic only and '
+            'builds every bundle additionally with its times given as datetime objects and as ISO text (sweep of +-ms around 2^k ms and '
+            '2^k s since 2000 for k = 0..45, plus random ms instants over 2000-2040); a wrong conversion is a correspondence break and an '
+            'oracle failure on a concrete input',
             'C02_reencode covers octets of a deterministic encoder (shortest heads, definite-length blocks); RFC 9171 4.1 also permits '
             'indefinite-length items inside blocks, which the implementation normalises (malformed table)',
         ])
